@@ -213,7 +213,9 @@ def path_facts(node):
     child = node
     for p in parents(node):
         if isinstance(p, FUNC + (ast.Lambda,)):
+            _early_exits(p, child, out)
             break
+        _early_exits(p, child, out)
         if isinstance(p, ast.If):
             if any(child is s for s in p.body):
                 _decompose(p.test, True, out)
@@ -235,8 +237,133 @@ def path_facts(node):
     return out
 
 
+def _always_leaves(stmts):
+    """does the block end in return / raise / continue / break on every
+    path (syntactically)?"""
+    if not stmts:
+        return False
+    last = stmts[-1]
+    if isinstance(last, (ast.Return, ast.Raise, ast.Continue, ast.Break)):
+        return True
+    if isinstance(last, ast.If) and last.orelse:
+        return _always_leaves(last.body) and _always_leaves(last.orelse)
+    return False
+
+
+def _early_exits(parent, child, out):
+    """`if c: ...; continue` (return, raise, break) before `child` in the
+    same block: c is false whenever child runs"""
+    for fld in ("body", "orelse", "finalbody"):
+        lst = getattr(parent, fld, None)
+        if not isinstance(lst, list) or not any(child is x for x in lst):
+            continue
+        for st in lst:
+            if st is child:
+                break
+            if isinstance(st, ast.If):
+                if _always_leaves(st.body) and not _always_leaves(st.orelse):
+                    _decompose(st.test, False, out)
+                elif st.orelse and _always_leaves(st.orelse) and not \
+                        _always_leaves(st.body):
+                    _decompose(st.test, True, out)
+
+
 def has_fact(facts, pattern, truth):
     for e, t in facts:
         if t == truth and match(pattern, e) is not None:
             return True
     return False
+
+
+# ------------------------------------------------------ override discipline
+def _is_transparent_forward(func):
+    """the body is (docstring +) `return [await] super().<same name>(<its own
+    parameters, each once, unchanged>)`"""
+    body = [s for s in func.body if not (isinstance(s, ast.Expr) and
+                                         isinstance(s.value, ast.Constant))]
+    if len(body) != 1 or not isinstance(body[0], (ast.Return, ast.Expr)):
+        return False
+    v = body[0].value
+    if isinstance(v, ast.Await):
+        v = v.value
+    if not (isinstance(v, ast.Call) and isinstance(v.func, ast.Attribute)
+            and v.func.attr == func.name and isinstance(
+                v.func.value, ast.Call) and dotted(v.func.value.func)
+            == "super"):
+        return False
+    a = func.args
+    want_pos = [x.arg for x in a.posonlyargs + a.args][1:]
+    got_pos = []
+    for x in v.args:
+        if isinstance(x, ast.Starred) and isinstance(x.value, ast.Name) \
+                and a.vararg and x.value.id == a.vararg.arg:
+            continue
+        if not isinstance(x, ast.Name):
+            return False
+        got_pos.append(x.id)
+    kw = {}
+    for k in v.keywords:
+        if k.arg is None:
+            if not (isinstance(k.value, ast.Name) and a.kwarg
+                    and k.value.id == a.kwarg.arg):
+                return False
+            continue
+        if not (isinstance(k.value, ast.Name) and k.value.id == k.arg):
+            return False
+        kw[k.arg] = True
+    rest = [p for p in want_pos if p not in got_pos]
+    if got_pos != want_pos[:len(got_pos)] or any(p not in kw for p in rest):
+        return False
+    return all(x.arg in kw for x in a.kwonlyargs)
+
+
+_OVERRIDE_CONTROL = '''
+class Base:
+    async def m(self, a, *args, data=None):
+        return 1
+class Good(Base):
+    async def m(self, a, *args, data=None):
+        """doc"""
+        return await super().m(a, *args, data=data)
+class Bad(Base):
+    async def m(self, a, *args, data=None):
+        kw = {}
+        if data:
+            kw["data"] = data
+        return await super().m(a, *args, **kw)
+'''
+
+
+def override_rule(chk, repo, rule, base_qual, methods, why):
+    """the behaviour the other rules establish for `base_qual.<method>` must
+    not be replaced in a subclass: an override inside the package is
+    accepted only when it is a transparent forwarder to super()"""
+    # positive control: the recogniser tells the two shapes apart
+    ctl = ast.parse(_OVERRIDE_CONTROL)
+    good = ctl.body[1].body[0]
+    bad = ctl.body[2].body[0]
+    if not _is_transparent_forward(good) or _is_transparent_forward(bad):
+        raise AnalysisError("override_rule: positive control failed")
+    base = repo.cls(base_qual)
+    subs = [c for c in repo.subclasses(base_qual) if c is not base
+            and not c.module.name.endswith("_test")]
+    n = 0
+    for meth in methods:
+        need(meth in base.methods or repo.lookup(base, meth)[1] is not None,
+             f"{base_qual}.{meth} vanished")
+        offenders = []
+        for c in subs:
+            f = c.methods.get(meth)
+            if f is None:
+                continue
+            n += 1
+            if not _is_transparent_forward(f):
+                offenders.append((c, f))
+        chk.ob(rule, f"{base_qual}.{meth}", f"no subclass replaces {meth}() "
+               f"({len(subs)} subclasses looked at)", not offenders,
+               offenders[0][1] if offenders else base.methods.get(
+                   meth, base.node),
+               (f"{offenders[0][0].qualname}.{meth} overrides it with code "
+                f"of its own: {why}") if offenders else
+               "inherited unchanged (or forwarded verbatim) everywhere")
+    return n
